@@ -1188,8 +1188,7 @@ def check(run):
             exit_codes[o["exit_rc"]] = exit_codes.get(o["exit_rc"], 0) + 1
             if o["exit_rc"] != 0:
                 dis.append(("exit", "pgcat exit status %s" % o["exit_rc"]))
-            if o["after"].get("#new_connection") == "accepted":
-                dis.append(("exit", "a connection was accepted after the process had exited"))
+            # (whether the port still accepts is not checked: another process may have been given the port meanwhile)
         if t[-1]["exited"] is None and not o["alive_end"]:
             dis.append(("exit", "the process exited although the model does not"))
         evals += 1
